@@ -28,6 +28,20 @@ def build(shape, cs):
 # seeded in-memory mutants of the code under test (vacuity/mutation guard, DESIGN.md 3.5)
 # ------------------------------------------------------------------------------------------------
 def _mutate(name):
+    if name == 'content_type_sticks':
+        # the content type sniffed for the first document is kept for later ones
+        from chameleon import template as ct
+        import inspect
+        import textwrap
+        src_fn = ct.BaseTemplate.write
+        code = textwrap.dedent(inspect.getsource(src_fn))
+        new = code.replace("self.content_type = content_type or self.default_content_type",
+                           "self.content_type = self.__dict__.get('content_type') or content_type or self.default_content_type")
+        assert new != code
+        ns = dict(src_fn.__globals__)
+        exec('from __future__ import annotations\n' + new, ns)
+        ct.BaseTemplate.write = ns['write']
+        return
     if name == 'digest_folds_line_endings':
         from chameleon import template as ct
         import inspect
@@ -412,6 +426,49 @@ def cached_pair(i: int, j: int, k: int) -> bool:
     ok = True
     for d, t in zip(docs, tpls):
         ok = ok and t.render() == d
+    return (not ok) if CFG.get('negate') else ok
+
+
+def rewritten_kinds(i: int, j: int, k: int, as_file: bool) -> bool:
+    """
+    pre: 0 <= i < 8 and 0 <= j < 8 and 0 <= k < 8
+    post: _
+    """
+    # one template object that is given three statement-free documents one after the other (write(), or a
+    # file template whose file changes): each time it renders the current document -- as written in XML mode,
+    # with CR/CRLF read as LF otherwise
+    import os
+    import shutil
+    import tempfile
+    from chameleon import PageTemplate, PageTemplateFile
+    from vlib.notrace import NoTracing
+    pool = XDOCS + ['<a>x\r\ny</a>', '<a k="v">x\ry</a>']
+    docs = [pickx(pool, i), pickx(pool, j), pickx(pool, k)]
+    as_file = True if as_file else False
+    ok = True
+    with NoTracing():
+        d = tempfile.mkdtemp(prefix='verif-c03-')
+        try:
+            path = os.path.join(d, 'doc.pt')
+            t = None
+            for n, doc in enumerate(docs):
+                if as_file:
+                    with open(path, 'wb') as f:
+                        f.write(doc.encode('utf-8'))
+                    os.utime(path, (1000000000 + 10 * n, 1000000000 + 10 * n))
+                    if t is None:
+                        t = PageTemplateFile(path, auto_reload=True)
+                elif t is None:
+                    t = PageTemplate(doc)
+                else:
+                    t.write(doc)
+                want = doc if doc.startswith('<?xml') else doc.replace('\r\n', '\n').replace('\r', '\n')
+                if t.render() != want:
+                    ok = False
+        except Exception:
+            ok = False
+        finally:
+            shutil.rmtree(d, True)
     return (not ok) if CFG.get('negate') else ok
 
 
